@@ -194,11 +194,19 @@ func (e *Env) Finish() {
 
 // ---------- Coq term printing ----------
 
+// Z prints an integer as a Coq Z literal.  Large numbers are written in hexadecimal:
+// Coq parses hexadecimal literals in linear time, decimal ones quadratically.
 func Z(x *big.Int) string {
-	if x.Sign() < 0 {
-		return "(" + x.String() + ")"
+	if x.BitLen() <= 60 {
+		if x.Sign() < 0 {
+			return "(" + x.String() + ")"
+		}
+		return x.String()
 	}
-	return x.String()
+	if x.Sign() < 0 {
+		return "(-0x" + new(big.Int).Neg(x).Text(16) + ")"
+	}
+	return "0x" + x.Text(16)
 }
 func Zi(x int64) string { return Z(big.NewInt(x)) }
 func B(b bool) string {
